@@ -230,7 +230,12 @@ func (u *unknownAnalyzer) analyze(inf *types.Info, fnType *ast.FuncType, body *a
 				if isVar {
 					obj := core.ObjOf(inf, core.Unparen(e).(*ast.Ident))
 					if core.GuardedNonNil(inf, par, x, obj) {
-						return -1 // propagated failure of a call: exempt
+						// propagated failure of a call: exempt — unless what the variable holds on this path is the
+						// sentinel itself (`err = NoSuchFieldErr; …; if err != nil { return err }`)
+						if state == sSentinel {
+							record(state, x.Pos())
+						}
+						return -1
 					}
 					record(state, x.Pos())
 					return -1
@@ -257,6 +262,12 @@ func (u *unknownAnalyzer) analyze(inf *types.Info, fnType *ast.FuncType, body *a
 				if be, ok := core.Unparen(f.Expr).(*ast.BinaryExpr); ok && field != nil {
 					isField := core.ObjOf(inf, be.X) == field || core.ObjOf(inf, be.Y) == field
 					if isField && ((be.Op == token.EQL && f.Val) || (be.Op == token.NEQ && !f.Val)) {
+						return state, false
+					}
+				}
+				// the variable holds the sentinel on this path: it is not nil
+				if e, nonNil, ok := core.NilTest(inf, f); ok && !nonNil && state == sSentinel {
+					if v, isVar := core.ObjOf(inf, e).(*types.Var); isVar && core.IsErrorType(v.Type()) {
 						return state, false
 					}
 				}
